@@ -25,7 +25,11 @@ func init() {
 			"the loop is cut by len(results) == len(chain), iterates over all results and indexes both slices with the same variable. " +
 			"Operands that are parameters of an unexported helper are judged at every call site of the helper, results of a module helper at every return of it; " +
 			"a remembered position of a certificate (index tag) stands for the class of the result read there; nothing the aggregator reaches writes the results; " +
-			"a range-over-func loop over slices.Backward / slices.All of a never-reassigned slice variable is decided on its index-loop form.",
+			"a range-over-func loop over slices.Backward / slices.All of a never-reassigned slice variable is decided on its index-loop form. " +
+			"Anchors are found by role: the validator calls by the interface method invoked, the aggregator by its signature ([]*CertRevocationResult in, result.Result out), the revocation function as the top-most function that returns an object with an error field and reaches all of them, at whatever boundary helpers were cut; " +
+			"an exit whose object is built by a constructor (function, method, closure, delegating constructor) fails iff what the constructor puts into Error is non-nil with the arguments of the call; " +
+			"the facts required on success exits are branches on SSA values that hand on the validators' error / the aggregator's result, in any function between the revocation function and the anchor calls, rendered in its frame through the call sites; " +
+			"a nil test of the validator fields computed by a predicate helper is decided by abstract interpretation of the helper with both fields nil.",
 		NotCov: "OCSP/CRL evaluation (notation-core-go revocation); result vectors are covered as abstract states, not as enumerated concrete vectors.",
 		Trusted: []string{"go/types, go/ssa", "notation-core-go revocation.Validator / Revocation", "soundness of the counter abstraction: the counter is only incremented by 1, at most once per iteration (checked)",
 			"standard library slices.Backward / slices.All yield (i, s[i]) for every index of s exactly once, in descending / ascending order, until the loop body breaks"},
@@ -77,16 +81,15 @@ func runC05(c *Ctx) {
 		c.Unk("consts", "anchor: revocation result constants of notation-core-go", "-", "not found")
 		return
 	}
-	// R: the function that hands the validators' results to the aggregator. The two validator calls are found by the
-	// interface method they invoke (names of notation-core-go), in R itself or in a helper R reaches by static calls; the
-	// aggregator by its []*result.CertRevocationResult parameter.
-	R, A, aCall, vcCall, vCall, nCand := c05Anchors(w)
-	if R == nil || nCand != 1 {
-		c.Unk("anchor", "anchor: the verifier function that consults revocation.Validator.ValidateContext and the deprecated revocation.Revocation.Validate (itself or through a helper) and aggregates their results", "-", fmt.Sprintf("%d candidates", nCand))
+	// Anchors by role (see c05Anch): the validator calls, the aggregator, and the candidates — the functions that return
+	// the result object and reach all of them, wherever helper boundaries were cut. R is the top-most candidate.
+	an, nCand := c05FindAnchors(w)
+	if an == nil || nCand != 1 {
+		c.Unk("anchor", "anchor: the verifier function that returns the revocation result object and reaches (itself or through helpers) revocation.Validator.ValidateContext, the deprecated revocation.Revocation.Validate and the aggregation of their results", "-", fmt.Sprintf("%d candidates", nCand))
 		return
 	}
+	R, A, aCall, vcCall, vCall := an.Top, an.A, an.aCall, an.vcCall, an.vCall
 	c.SeenFn(R.String())
-	fi := w.Info(R)
 	// (b) arguments
 	var optChain, optTime ssa.Value
 	if al, ok := unwrapLoadAlloc(vcCall.Call.Args[1]); ok {
@@ -105,31 +108,48 @@ func runC05(c *Ctx) {
 			}
 		}
 	}
-	// A chain operand that is a parameter of an extracted helper is judged at every call site of the helper (the list
-	// of call sites must be closed: unexported, never used as a value): what the validator receives is what the
-	// callers pass.
-	chainOK := func(v ssa.Value) (bool, string) {
+	// A chain operand that is (a field path of) a parameter of an extracted helper is judged at every call site of the
+	// helper (the list of call sites must be closed: unexported, never used as a value): what the validator receives is
+	// what the callers pass. Either the operand is the parameter itself (followed on SSA values), or its printed form
+	// mentions parameters — the helper was handed the SignerInfo, the EnvelopeContent or the whole outcome instead of the
+	// chain — and is rendered in R's frame by substituting them with the arguments of the call sites.
+	const chainSuffix = ".EnvelopeContent.SignerInfo.CertificateChain"
+	chainOK := func(v ssa.Value, in *ssa.Function) (bool, string) {
 		if v == nil {
 			return false, "?"
 		}
-		os, ok := c05Origins(w, v, 3)
-		if !ok || len(os) == 0 {
-			return false, desc(v) + " (call sites not all known)"
-		}
 		var ds []string
+		if os, ok := c05Origins(w, v, 3); ok && len(os) > 0 {
+			all := true
+			for _, o := range os {
+				d := desc(o)
+				ds = append(ds, d)
+				if !strings.HasSuffix(d, chainSuffix) {
+					all = false
+				}
+			}
+			if all {
+				return true, strings.Join(uniq(sortStrings(ds)), " / ")
+			}
+		}
+		lifted := c05Lift(w, desc(v), in, R, 4)
+		if len(lifted) == 0 {
+			if len(ds) == 0 {
+				return false, desc(v) + " (call sites not all known)"
+			}
+			return false, strings.Join(uniq(sortStrings(ds)), " / ")
+		}
 		all := true
-		for _, o := range os {
-			d := desc(o)
-			ds = append(ds, d)
-			if !strings.HasSuffix(d, ".EnvelopeContent.SignerInfo.CertificateChain") {
+		for _, d := range lifted {
+			if !strings.HasSuffix(d, chainSuffix) {
 				all = false
 			}
 		}
-		return all, strings.Join(uniq(sortStrings(ds)), " / ")
+		return all, strings.Join(uniq(sortStrings(lifted)), " / ")
 	}
-	okC, dC := chainOK(optChain)
+	okC, dC := chainOK(optChain, vcCall.Parent())
 	c.Check(okC, "args/chain-context-validator", "provenance: ValidateContext receives the complete (unsliced) SignerInfo.CertificateChain of the verified envelope", w.InstrPos(vcCall), "CertChain is "+dC)
-	okC, dC = chainOK(vCall.Call.Args[0])
+	okC, dC = chainOK(vCall.Call.Args[0], vCall.Parent())
 	c.Check(okC, "args/chain-deprecated-client", "provenance: Revocation.Validate receives the complete (unsliced) SignerInfo.CertificateChain of the verified envelope", w.InstrPos(vCall), "chain argument is "+dC)
 	tV := vCall.Call.Args[1]
 	// the same SSA value in one frame, or — when the value is a helper's parameter — the same single origin
@@ -178,59 +198,170 @@ func runC05(c *Ctx) {
 	c.Evals++
 	c.Check(okTime, "args/signing-time-only-for-signing-authority", "the signing time handed to the validator is the zero time unless the scheme is notary.x509.signingAuthority", w.InstrPos(vCall), detail)
 
-	// (c) success exits of R. Edges that lead only to an exit whose result object is given a provably non-nil Error
-	// through a phi are removed first (see c05FailingPhiEdges): what remains are the paths on which the Error stays nil.
+	// (c) success exits of the candidates. In each candidate, edges that lead only to an exit whose result object is given
+	// a provably non-nil Error — through a phi stored into the object (c05FailingPhiEdges) or through the error operand
+	// of a result constructor (c05FailingCtorEdges) — are removed first: what remains are the paths on which the Error
+	// can stay nil. An exit that forwards the unchanged result of a lower candidate is judged in that candidate.
+	//
+	// The two facts required on every remaining exit are looked for on SSA values, in whatever function between the
+	// candidate and the anchor calls tests them, and matched as exact labels rendered in the candidate's frame:
+	//   - validator-error: a branch on `e == nil` where e hands on the error of both validator calls (their phi, the error
+	//     result of a dispatch helper every return of which forwards one of them, a helper's parameter fed with it);
+	//   - aggregate-ok: a branch (or switch case) on `a == ResultOK` where a hands on the aggregator's first result in the
+	//     same ways.
+	// A fact tested inside a helper reaches the candidate's exit only through the engine's composition: the exit must pass
+	// the edge on which the helper's verdict (its error == nil, its result object, its boolean) is the passing one.
 	mode := Mode{Kind: mObj, K: 0}
-	failCut := c05FailingPhiEdges(fi, 0)
-	s := w.Summarize(R, mode)
-	if len(failCut) > 0 {
-		s = fi.summarizeFrom(mode, entryState(), failCut)
+	errCarry := &c05Carry{w: w, targets: map[*ssa.Call]bool{vcCall: true, vCall: true}}
+	aggCarry := &c05Carry{w: w, targets: map[*ssa.Call]bool{aCall: true}}
+	isRes := func(t types.Type) bool { return namedOf(t) == "core/revocation/result.Result" }
+	type exitItem struct {
+		fn  *ssa.Function
+		ex  *ExitSum
+		alt map[string][]string // need name -> accepted labels in fn's frame
 	}
-	c.Evals += s.States
-	// the validators' error: the error-typed values of R that hand on the error of both validator calls (their phi, or
-	// the error result of a dispatch helper every return of which forwards one of them); the fact required is that
-	// value == nil, read off the branches of R that test it.
-	carry := &c05Carry{w: w, vc: vcCall, vv: vCall}
-	errVals := map[ssa.Value]bool{}
-	for _, b := range R.Blocks {
-		for _, in := range b.Instrs {
-			if v, ok := in.(ssa.Value); ok && isErrorType(v.Type()) && carry.both(v, 1) {
-				errVals[v] = true
+	var items []exitItem
+	failCuts := map[*ssa.Function]map[edgeKey]bool{}
+	for _, cand := range an.Cands {
+		c.SeenFn(cand.String())
+		fi := w.Info(cand)
+		failCut := c05FailingExitEdges(w, fi, 0)
+		failCuts[cand] = failCut
+		s := w.Summarize(cand, mode)
+		if len(failCut) > 0 {
+			s = fi.summarizeFrom(mode, entryState(), failCut)
+		}
+		c.Evals += s.States
+		alt := map[string][]string{
+			"validator-error": c05Labels(w, an, cand, func(f *ssa.Function) []string {
+				return c05NilEdges(w.Info(f), errCarry.carriers(f, 1, isErrorType))
+			}),
+			"aggregate-ok": c05Labels(w, an, cand, func(f *ssa.Function) []string {
+				return c05EqConstEdges(w.Info(f), aggCarry.carriers(f, 0, isRes), rc["ResultOK"])
+			}),
+		}
+		for _, ex := range s.Exits {
+			v := ex.Ret.Results[0]
+			if p, ok := v.(*ssa.Phi); ok && p.Block() == ex.Ret.Block() && ex.Pred >= 0 && ex.Pred < len(p.Edges) {
+				v = p.Edges[ex.Pred]
 			}
+			if _, fwd := c05Forwarded(an, cand, v, ex.Ret); fwd {
+				continue
+			}
+			items = append(items, exitItem{cand, c05Augment(w, cand, ex), alt})
 		}
 	}
-	var errAlt [][]string
-	for _, l := range c05NilEdges(fi, errVals) {
-		errAlt = append(errAlt, []string{l})
+	for _, n := range []struct{ name, what string }{
+		{"validator-error", "the validator's error == nil"},
+		{"aggregate-ok", fmt.Sprintf("aggregate == ResultOK (%d): every other aggregate sets the result's Error", rc["ResultOK"])},
+	} {
+		key := "result/" + n.name
+		rule := "must-check: every success-capable exit of " + fnName(R) + " (and of the inner functions it forwards) is reachable only through the passing edge of: " + n.what
+		if len(items) == 0 {
+			c.Unk(key, rule, w.FnPos(R), "the function has no success-capable exit under this mode: rule does not recognise its shape")
+			continue
+		}
+		okAll := true
+		for _, it := range items {
+			c.Evals++
+			found := false
+			for _, l := range it.alt[n.name] {
+				if _, ok := it.ex.Checked[l]; ok {
+					found = true
+					break
+				}
+			}
+			if found {
+				continue
+			}
+			okAll = false
+			d := fmt.Sprintf("success-capable exit of %s at %s (block b%d) is reachable without that check; facts that do hold on every path to it: %s",
+				fnName(it.fn), w.InstrPos(it.ex.Ret), it.ex.Ret.Block().Index, summarizeLabels(it.ex.Checked, 12))
+			if len(it.alt[n.name]) == 0 {
+				d += "; no branch between " + fnName(it.fn) + " and the anchor calls tests it"
+			}
+			c.Bad(key, rule, w.InstrPos(it.ex.Ret), d)
+			break
+		}
+		if okAll {
+			c.OK(key, rule, w.FnPos(R))
+		}
 	}
-	if len(errAlt) == 0 {
-		errAlt = [][]string{{"EQ(<the error of the validator consulted>,nil) — no branch of " + fnName(R) + " tests it"}}
-	}
-	c.requireOnExits("result", R, s.Exits, []Need{
-		{Name: "validator-error", What: "the validator's error == nil", Alt: errAlt},
-		{Name: "aggregate-ok", What: fmt.Sprintf("aggregate == ResultOK (%d): every other aggregate sets the result's Error", rc["ResultOK"]), Subs: []string{"EQ(call:" + fnName(A) + "(", fmt.Sprintf("#0,const:%d)", rc["ResultOK"])}},
-	})
-	// both-nil: the nil tests of the two receiver fields, rendered in R's frame (the validator calls may sit in a helper)
+	// both-nil: with the nil tests of the two receiver fields (rendered in the candidate's frame: the validator calls may
+	// sit in a helper) taking their nil edge, no success exit is reachable. An exit that forwards a lower candidate is
+	// no success exit of its own; if it stays reachable the lower candidate is examined in the same way.
 	{
-		want := map[string]bool{}
-		for _, call := range []*ssa.Call{vcCall, vCall} {
-			for _, d := range c05Lift(w, desc(callArgs(call)[0]), call.Parent(), R, 3) {
-				want["NE("+d+",nil)"] = true
+		nTests := 0
+		var wit []string
+		var witFn *ssa.Function
+		var visit func(cand *ssa.Function, depth int)
+		visited := map[*ssa.Function]bool{}
+		visit = func(cand *ssa.Function, depth int) {
+			if visited[cand] || depth <= 0 || wit != nil {
+				return
+			}
+			visited[cand] = true
+			fi := w.Info(cand)
+			want := map[string]bool{}
+			for _, call := range []*ssa.Call{vcCall, vCall} {
+				for _, d := range c05Lift(w, desc(callArgs(call)[0]), call.Parent(), cand, 4) {
+					want["NE("+d+",nil)"] = true
+				}
+			}
+			cut := fi.edgesMatching(func(l string, _ *ssa.If, _ bool) bool { return want[l] })
+			nTests += len(cut)
+			// a branch on a module predicate that, evaluated with both fields nil, has one possible value only
+			recvs := map[string]bool{}
+			for l := range want {
+				recvs[strings.TrimSuffix(strings.TrimPrefix(l, "NE("), ",nil)")] = true
+			}
+			for e, n := range c05PredicateEdges(w, fi, recvs) {
+				cut[e] = true
+				nTests += n
+			}
+			for e := range failCuts[cand] {
+				cut[e] = true
+			}
+			fwd := c05ForwardedCalls(an, cand)
+			old := fi.ignoreTail
+			fi.ignoreTail = fwd
+			x := fi.successWitness(mode, entryState(), cut)
+			fi.ignoreTail = old
+			c.Evals++
+			if x != nil {
+				wit, witFn = x, cand
+				return
+			}
+			for call := range fwd {
+				if call.Block().Index == 0 || fi.reachHit(entryState(), cut, map[int]bool{call.Block().Index: true}) {
+					visit(staticCallee(call), depth-1)
+				}
 			}
 		}
-		cut := fi.edgesMatching(func(l string, _ *ssa.If, _ bool) bool { return want[l] })
-		n := len(cut)
-		for e := range failCut {
-			cut[e] = true
+		visit(R, 4)
+		site := w.FnPos(R)
+		if witFn != nil {
+			site = w.FnPos(witFn)
 		}
-		wit := fi.successWitness(mode, entryState(), cut)
-		c.Evals++
-		c.Check(n >= 2 && wit == nil, "result/both-validators-nil", "with neither a code-signing validator nor a client the revocation result carries an error", w.FnPos(R), "a success result is possible with both validators nil", wit...)
+		c.Check(nTests >= 2 && wit == nil, "result/both-validators-nil", "with neither a code-signing validator nor a client the revocation result carries an error", site, "a success result is possible with both validators nil", wit...)
 	}
 	// aggregator arguments
 	{
-		c.Check(carry.both(aCall.Call.Args[0], 0), "aggregator/results-argument", "provenance: the aggregator receives the results returned by the validator that was consulted", w.InstrPos(aCall), "results argument is "+desc(aCall.Call.Args[0]))
-		okC, dC := chainOK(aCall.Call.Args[1])
+		// the operands by the type of the aggregator's parameter they feed, not by position
+		var resArg, chainArg ssa.Value
+		for i, p := range A.Params {
+			if i >= len(aCall.Call.Args) {
+				break
+			}
+			switch ts := p.Type().String(); {
+			case ts == c05ResultsType:
+				resArg = aCall.Call.Args[i]
+			case strings.Contains(ts, "[]*crypto/x509.Certificate"):
+				chainArg = aCall.Call.Args[i]
+			}
+		}
+		c.Check(resArg != nil && errCarry.all(resArg, 0), "aggregator/results-argument", "provenance: the aggregator receives the results returned by the validator that was consulted", w.InstrPos(aCall), "results argument is "+c05Desc(resArg))
+		okC, dC := chainOK(chainArg, aCall.Parent())
 		c.Check(okC, "aggregator/chain-argument", "provenance: the aggregator receives the same complete certificate chain", w.InstrPos(aCall), "chain argument is "+dC)
 	}
 	// A range-over-func loop over the standard slice iterators is decided on its index-loop form (see c05Desugar).
